@@ -513,34 +513,34 @@ def nzeros(ctx, t):
     k = int(ctx.floor(x))
     wpinitial = ctx.prec
     wpz, fp_tolerance = comp_fp_tolerance(ctx, k)
-    ctx.prec = wpz
-    a = ctx.siegelz(t)
-    if k == -1 and a < 0:
-        return 0
-    elif k == -1 and a > 0:
-        return 1
-    if k+2 < 400000000:
-        Rblock = find_rosser_block_zero(ctx, k+2)
-    else:
-        Rblock = search_supergood_block(ctx, k+2, fp_tolerance)
-    n1, n2 = Rblock[1]
-    if n2-n1 == 1:
-        b = Rblock[3][0]
-        if a*b > 0:
-            ctx.prec = wpinitial
-            return k+1
+    try:
+        ctx.prec = wpz
+        a = ctx.siegelz(t)
+        if k == -1 and a < 0:
+            return 0
+        elif k == -1 and a > 0:
+            return 1
+        if k+2 < 400000000:
+            Rblock = find_rosser_block_zero(ctx, k+2)
         else:
-            ctx.prec = wpinitial
-            return k+2
-    my_zero_number,block, T, V = Rblock
-    zero_number_block = n2-n1
-    T, V, separated = separate_zeros_in_block(ctx,\
-                                              zero_number_block, T, V,\
-                                              limitloop=ctx.inf,\
-                                            fp_tolerance=fp_tolerance)
-    n = count_to(ctx, t, T, V)
-    ctx.prec = wpinitial
-    return n+n1+1
+            Rblock = search_supergood_block(ctx, k+2, fp_tolerance)
+        n1, n2 = Rblock[1]
+        if n2-n1 == 1:
+            b = Rblock[3][0]
+            if a*b > 0:
+                return k+1
+            else:
+                return k+2
+        my_zero_number,block, T, V = Rblock
+        zero_number_block = n2-n1
+        T, V, separated = separate_zeros_in_block(ctx,\
+                                                  zero_number_block, T, V,\
+                                                  limitloop=ctx.inf,\
+                                                fp_tolerance=fp_tolerance)
+        n = count_to(ctx, t, T, V)
+        return n+n1+1
+    finally:
+        ctx.prec = wpinitial
 
 @defun_wrapped
 def backlunds(ctx, t):
